@@ -309,7 +309,14 @@ Example: `$var = (const) $(my_int)`""",
                 )
                 continue
             number = int(float(number_.content))
-            if operator_.content == "+":
+            if operator_.content in ("+", "-") and number == -2147483648:
+                # -2147483648 cannot be negated into a valid add/remove amount:
+                # it goes through the integer constant like `*=` does
+                datapack.add_int(number)
+                expression_commands.append(
+                    f"scoreboard players operation {variable_.content} {operator_.content}= {number} {datapack.int_name}"
+                )
+            elif operator_.content == "+":
                 if number >= 0:
                     expression_commands.append(
                         f"scoreboard players add {variable_.content} {number}"
